@@ -1,6 +1,6 @@
 (** Property C12 — user callbacks run at the documented times with the node's own value. *)
 From Coq Require Import String List ZArith Bool.
-From Zog Require Import Model.Val Model.Engine Spec.Sem Proofs.Refine Proofs.ExactP Model.Objects Proofs.ObjectsP.
+From Zog Require Import Model.Val Model.Engine Spec.Sem Proofs.Refine Proofs.ExactP Model.Objects Proofs.ObjectsP Model.Options Proofs.OptionsP.
 Import ListNotations.
 
 (** The engine's log of callback invocations is exactly the one the context-free semantics assigns:
@@ -42,3 +42,16 @@ Theorem C12_ctx_values_are_this_calls : forall d errs f k v k',
   ctx_get (ctx_set (new_exec_ctx d errs f) k v) k' = if String.eqb k k' then Some v else None.
 Proof. exact ctx_values_are_this_calls. Qed.
 Print Assumptions C12_ctx_values_are_this_calls.
+
+(** ... for any number of options in any order: ctx.Get(k) is the value of the call's last
+    WithCtxValue(k, _), nil when the call passed none; nothing of the recycled context is visible *)
+Theorem C12_ctx_get_is_the_calls_last_option : forall dirty opts k, ctx_value dirty opts k = last_ctx opts k.
+Proof. exact ctx_value_is_last_option. Qed.
+Print Assumptions C12_ctx_get_is_the_calls_last_option.
+Theorem C12_ctx_last_call_wins : forall dirty before k v after,
+  mentions after k = false -> ctx_value dirty (before ++ OCtx k v :: after) k = Some v.
+Proof. exact ctx_last_call_wins. Qed.
+Print Assumptions C12_ctx_last_call_wins.
+Theorem C12_ctx_other_keys_nil : forall dirty opts k, mentions opts k = false -> ctx_value dirty opts k = None.
+Proof. exact ctx_value_other_keys_nil. Qed.
+Print Assumptions C12_ctx_other_keys_nil.
